@@ -28,7 +28,7 @@ SLICES = {
     'outline-fn': (('functions', 'select'), X.tf_outline('function'), X.has_region, 1, X.regions_post()),
     'outline-consts': (('consts', 'localconst', 'select'), X.tf_outline('function'), X.has_region, 1, X.regions_post()),
     'outline-ovarray': (BASE, X.tf_outline('function'), X.need(X.has_region, 'region-array-option'), 1, X.regions_post(ovarray=True)),
-    'outline-print': (BASE, X.tf_outline('function'), X.has_region, 1, X.regions_post(allow_print=True)),
+    'outline-print': (BASE, X.tf_outline('function'), X.need(X.has_region, 'region-print-array'), 1, X.regions_post(allow_print=True)),
     'outline-assoc': (('assoc', 'select'), X.tf_outline('function'), X.need(X.has_region, 'region-in-assoc'), 1, X.regions_post(allow_assoc=True)),
     'extract': (BASE + ('internal', 'modsubs', 'nohostarrays'), X.tf_extract('function'), ap_internal, 4),
     'extract-hostarrays': (('internal', 'select'), X.tf_extract('function'), X.need(ap_internal, 'host-array-2refs'), 1),
